@@ -42,7 +42,10 @@ RULE = ("valid pieces (1-3 tracks, 2-6 bars, signature changes, empty bars) spli
         "lists, a step above ppqn, three-digit steps, repeated entries); the chunked stream is compared with the single call on the re-joined bars "
         "AND, when no note crosses a bar line, with the single call on the GENERATED tracks and with the piece's own signatures (plain data): notes, "
         "bar ends, in-force bar-length timeline of the returned signature events; pieces in and around D19's class (short bars, notes struck on the "
-        "bar line that last exactly the bar, part of it or two bars, signature changes after such bars), cut at random bar lines; "
+        "bar line that last exactly the bar, part of it or two bars, signature changes after such bars), cut at random bar lines; pieces with "
+        "REPEATED bars (a bar's content copied into later bars of the same signature, repeated phrases, repeated empty bars; notes from two "
+        "values / two velocities) mostly under configurations with an un-fused attribute and running values, one bar per call, two / three bars "
+        "per call and random partitions (thorough: all), every call of a partition on one tokeniser object; "
         "non-trivial = at least 2 chunks and at least 2 notes")
 ASSUMPTIONS = ["the glue from real bars to whole-bar chunks (C03f.extract_wholebars_nozero) assumes tracks on one channel each — a need of the proof only: mixed-channel tracks were replayed on the implementation and evaluated in the model without a failure",
                "models: SCoda.tokeniseCore with explicit carried state, SCoda.splitBars, SCoda.barsToSeq; every call of every "
@@ -97,7 +100,10 @@ def o_chunked(inp):
     cuts = list(inp["cuts"])          # bar indices where a new call starts (sorted, within 1..nbars-1)
     if not valid_piece(cfg.kw, tracks):
         return [("~skip:invalid-piece", "")]
-    tk = cfg.tk()
+    # ONE tokeniser object makes the single call and every call of the partition (as a caller would): the harness's instance of the
+    # configuration, which earlier inputs of the run have used too (what they left on it is part of the replayable history, `before`), or —
+    # `own_tokeniser` — an object constructed for this input alone, so that the outcome (and the shrinker) depends on this input only
+    tk = cfg.fresh() if inp.get("own_tokeniser") else cfg.tk()
     try:
         tb = bars_of(tracks)
     except Exception:
@@ -357,6 +363,66 @@ def generate(ctx):
         ctx.check("chunked", {"cfg": kw, "tracks": piece["tracks"], "cuts": cuts})
         if i % 2 == 0:
             ctx.check("chunked_split", {"cfg": kw, "tracks": piece["tracks"], "cuts": cuts, "scale": rng.choice([1, 2])})
+    # pieces with REPEATED bars (seeded change C03_agent8): bars copied into later bars of the same signature (2-3 repeats, repeated phrases,
+    # repeated empty bars), tokenised one bar per call and in mixed partitions by ONE tokeniser object (o_chunked takes the harness's instance of
+    # the configuration, `cfg.tk()`, and makes every call of the partition on it, as a caller would), mostly under configurations with an un-fused attribute and running values — there
+    # the tokens of a call depend on the attributes carried into it, so two calls of identical content are not interchangeable
+    for i in range(ctx.n(60, 500)):
+        piece = H.gen_repeat_piece(rng)
+        nt, nb = len(piece["tracks"]), len(piece["bars"])
+        r = rng.random()
+        if r < 0.85:
+            unf = rng.choice(["value", "value", "velocity", "track"] if nt > 1 else ["value", "value", "velocity"])
+            kw = dict(num_tracks=nt, pitch_range=(55, 70), running=True,
+                      fuse_value=False if unf == "value" else rng.random() < 0.5,
+                      fuse_velocity=False if unf == "velocity" else rng.random() < 0.5,
+                      fuse_track=False if unf == "track" else rng.random() < 0.5,
+                      velocity_bins=rng.choice([2, 4, 8, 16]) if unf == "velocity" else rng.choice([1, 2, 4, 8]))
+        else:
+            kw = dict(num_tracks=nt, pitch_range=(55, 70), running=rng.random() < 0.5, fuse_value=rng.random() < 0.5,
+                      fuse_velocity=rng.random() < 0.5, fuse_track=rng.random() < 0.5, velocity_bins=rng.choice([1, 2, 4, 8]))
+        ctx.count("repeated-bars")
+        ctx.count("repeated-bars:plan:" + ("empty-bar-repeated" if piece["plan"].count("E") >= 2 else "no-empty-repeat"))
+        if H.unfused_running(kw):
+            ctx.count("repeated-bars:cfg-unfused-attribute-with-running-values")
+        if len(piece["sigs"]) > 1:
+            ctx.count("repeated-bars:signature-change")
+        if ctx.thorough and nb <= 5:
+            parts = [[c for c in range(1, nb) if (mask >> (c - 1)) & 1] for mask in range(1 << (nb - 1))]
+        else:
+            parts = [list(range(1, nb))] + [[c for c in range(1, nb) if rng.random() < 0.6] for _ in range(2)]
+            if nb % 2 == 0 and nb >= 4:
+                parts.append(list(range(2, nb, 2)))             # two bars per call: a repeated phrase is a repeated call
+            if nb % 3 == 0 and nb >= 6:
+                parts.append(list(range(3, nb, 3)))
+        nn = sum(len(x) for x in piece["notes"])
+        own = {"own_tokeniser": True} if i % 2 == 0 else {}
+        ctx.count("repeated-bars:tokeniser-object:" + ("constructed-for-this-input" if own else "shared-with-earlier-inputs"))
+        for cuts in parts:
+            ctx.case((piece["tracks"], sorted(kw.items()), cuts), len(cuts) >= 1 and nn >= 2)
+            rep = H.repeated_calls(piece, cuts)
+            if rep:
+                ctx.count("repeated-bars:partition-with-two-calls-of-identical-content")
+                if any(d for _, _, d in rep):
+                    ctx.count("repeated-bars:…-reached-under-different-carried-running-values")
+                    if H.unfused_running(kw):
+                        ctx.count("repeated-bars:…-…-and-cfg-unfused-with-running-values")
+            ctx.check("chunked", dict({"cfg": kw, "tracks": piece["tracks"], "cuts": cuts}, **own))
+        if i % 3 == 0:
+            # correspondence: every call of the finest partition with the state Python carried into it, all on the harness's one tokeniser object
+            try:
+                tb = bars_of(piece["tracks"])
+            except Exception:
+                ctx.count("split-bars-error")
+                continue
+            cfg = P.TkCfg(**kw)
+            sd = None
+            for b in range(len(tb[0])):
+                res = P.op_tokenise(cfg, sd, chunk_tracks(tb, b, b + 1))
+                ctx.corr("tokenise_stateful", res)
+                if not res[1].startswith("T "):
+                    break
+                sd = [int(x) for x in res[1].split(" | ")[1].split()]
     prev = None
     for i in range(ctx.n(60, 1200)):
         extra = {}
